@@ -330,10 +330,16 @@ func parseKeyValuePairs(remainder []byte, map_values MappingValues, errs []error
 	encounteredKeysMap := map[string]bool{}
 	pairCount := 0
 	previousLength := len(remainder)
+	// A length mismatch has already been reported by the caller; leftover bytes
+	// are then expected and are not reported a second time.
+	lengthConsistent := len(errs) == 0
 
 	for {
 		if shouldStopLoop(pairCount, remainder, previousLength) {
 			errs = appendMaxPairsError(errs, pairCount)
+			if lengthConsistent {
+				errs = appendTrailingBytesError(errs, pairCount, remainder)
+			}
 			break
 		}
 
@@ -362,6 +368,16 @@ func parseKeyValuePairs(remainder []byte, map_values MappingValues, errs []error
 func appendMaxPairsError(errs []error, pairCount int) []error {
 	if pairCount >= MAX_MAPPING_PAIRS {
 		errs = append(errs, oops.Errorf("exceeded maximum mapping pairs (%d)", MAX_MAPPING_PAIRS))
+	}
+	return errs
+}
+
+// appendTrailingBytesError appends an error when parsing stops with bytes left over
+// that cannot hold another key-value pair. Without it those bytes are dropped
+// silently and the mapping no longer re-serializes to the bytes it was read from.
+func appendTrailingBytesError(errs []error, pairCount int, remainder []byte) []error {
+	if pairCount < MAX_MAPPING_PAIRS && len(remainder) > 0 {
+		errs = append(errs, oops.Errorf("mapping format violation, %d trailing bytes do not form a key-value pair", len(remainder)))
 	}
 	return errs
 }
@@ -500,9 +516,10 @@ func shouldStopParsing(err error) bool {
 
 // hasMinimumBytesForKeyValuePair checks if there are enough bytes for another key-value pair.
 func hasMinimumBytesForKeyValuePair(remainder []byte) bool {
-	// Minimum byte length required: 2 bytes for each string length,
-	// at least 1 byte per string, one byte for =, one byte for ;
-	if len(remainder) < 6 {
+	// Minimum byte length required: one length byte for each string (either
+	// string may be empty), one byte for =, one byte for ;, plus the declared
+	// key and value lengths.
+	if len(remainder) < minimumPairLength(remainder) {
 		log.WithFields(logger.Fields{
 			"at":     "(Mapping) Values",
 			"reason": "mapping format violation",
@@ -510,6 +527,22 @@ func hasMinimumBytesForKeyValuePair(remainder []byte) bool {
 		return false
 	}
 	return true
+}
+
+// minimumPairLength returns the number of bytes the next key-value pair needs
+// according to its length prefixes, or the smallest possible pair (4 bytes)
+// when the prefixes themselves are out of reach.
+func minimumPairLength(remainder []byte) int {
+	const smallestPair = 4
+	if len(remainder) < smallestPair {
+		return smallestPair
+	}
+	keyLen := int(remainder[0])
+	valLenIndex := 1 + keyLen + 1
+	if valLenIndex >= len(remainder) {
+		return smallestPair + keyLen
+	}
+	return smallestPair + keyLen + int(remainder[valLenIndex])
 }
 
 // parseKeyFromRemainder extracts a key string from the remainder data.
